@@ -432,7 +432,7 @@ func TestP3UniForms(t *testing.T) {
 	}
 	rec := ev.New("C16", "uniforms")
 	defer rec.Finish(t)
-	rec.Rule("all uniXXXX over the BMP (65,536 values, upper case), uXXXX..uXXXXXX at boundary values (0, D7FF, D800, DFFF, E000, FFFF, 10000, 10FFFF, 110000, FFFFFF) in every legal digit count, lower-case variants, wrong lengths (uni + 1..9 digits, u + 1..8 digits), multi-group uni names with a surrogate in any position. Each name counts once.")
+	rec.Rule("all uniXXXX over the BMP (65,536 values, upper case), uXXXX..uXXXXXX at boundary values (0, D7FF, D800, DFFF, E000, FFFF, 10000, 10FFFF, 110000, FFFFFF) in every legal digit count, lower-case variants, wrong lengths (uni + 1..9 digits, u + 1..8 digits), multi-group uni names with a surrogate in any position; signs, underscores, base prefixes, blanks, non-ASCII digits and other non-hex characters at every position of a uni / u name. Each name counts once.")
 	try := func(name string) {
 		rec.Eval(1)
 		rec.NonTrivial(name)
@@ -483,6 +483,25 @@ func TestP3UniForms(t *testing.T) {
 		try("uni" + seq[:len(seq)-4] + "D800")
 		try("uni" + seq[:len(seq)-1])
 		try("uni" + seq[:len(seq)-1] + "f")
+	}
+	// characters a number parser might accept in a hex position: signs,
+	// underscores, base prefixes, white space, full-width and other digits
+	for _, odd := range []string{"+", "-", "_", " ", "x", "X", "0x", "0X", "#", ".", "\uff11", "\u0661", "g", "G", "\x00"} {
+		for pos := 0; pos <= 4; pos++ {
+			hex := "0041"
+			v := hex[:pos] + odd + hex[pos:]
+			try("u" + v)
+			try("uni" + v)
+			if len(v) > 4 {
+				try("u" + v[:4])
+				try("uni" + v[:4])
+				try("u" + v[len(v)-4:])
+				try("uni" + v[len(v)-4:])
+			}
+			try("uni0041" + v[:4])
+			try("uni" + v[:4] + "0042")
+			try("A_u" + v + "_B")
+		}
 	}
 	try("uni")
 	try("u")
